@@ -65,7 +65,7 @@ class Contract:
     def __init__(self, qualname, props, args=None, requires=None, ensures=None, raises=None,
                  on_raise=None, ghost=None, ghost_update=None, modifies=None, setup=None,
                  result=None, self_desc=None, let=None, any_raise_ok=False, modular_post=None,
-                 note='', unchanged=None, pre_hook=None, canary=None, decreases=None, loops=None, assume_only=None, lazy=False):
+                 note='', unchanged=None, pre_hook=None, canary=None, decreases=None, loops=None, assume_only=None, lazy=False, ghost_call=None):
         self.qualname = qualname
         self.props = list(props)
         self.args = args or {}                # name -> sort descriptor
@@ -82,6 +82,9 @@ class Contract:
                 self.raises.append(RaisesClause(**r))
         self.ghost = ghost or {}              # name -> sort descriptor
         self.ghost_update = ghost_update or {}
+        # ghost arguments are supplied by the CALLER: name -> callable(interp, locals) giving the instantiation every
+        # modular call site uses (default: an arbitrary value, i.e. the requires must hold for all instantiations)
+        self.ghost_call = ghost_call or {}
         self.modifies = modifies              # None: unrestricted
         self.setup = setup                    # optional callable(interp, ctx) customising the pre-state
         self.result = result                  # sort descriptor of the result (modular use)
@@ -108,6 +111,26 @@ class Contract:
 def contract(qualname, **kw):
     props = kw.pop('props')
     return Contract(qualname, props, **kw)
+
+
+_UNPROVED = {}
+
+
+def unproved_clauses():
+    """Obligation ids of ensures / on_raise clauses that an OPEN known finding says do not hold on the real code.
+    Such a clause is reported (KNOWN-FINDING) where it is checked and is never assumed at a modular call site."""
+    if 'ids' not in _UNPROVED:
+        import json, os
+        p = os.path.join(os.path.dirname(os.path.dirname(os.path.abspath(__file__))), 'known_findings.json')
+        ids = set()
+        if os.path.exists(p):
+            for f in json.load(open(p)).get('findings', []):
+                if f.get('status') != 'open':
+                    continue
+                obls = f['obligation'] if isinstance(f['obligation'], list) else [f['obligation']]
+                ids.update(o for o in obls if '::ensures[' in o or '::on_raise[' in o)
+        _UNPROVED['ids'] = ids
+    return _UNPROVED['ids']
 
 
 def layout(cls_qualname, fields):
